@@ -1,6 +1,101 @@
 import BoltonsVerif.Common
-/- C03 driver: placeholder until the C02 model driver is wired in (the C03 correspondence replays the
-   linearised operations on the C02 model). -/
+import BoltonsVerif.C02.Model
+/-
+C03 line protocol: the operations of a concurrent run, in the order in which they took the
+lock (the linearisation `C03.serializable` promises), replayed ATOMICALLY on the C02 cache model.
+
+    <lru:0|1> <max> <on_miss:0|1> <init pairs k.v,… | -> <op> <op> …
+  s:k:v  c[k]=v      g:k  c[k]          G:k:d  c.get(k,d)     d:k  del c[k]
+  p:k    c.pop(k)    P:k:d c.pop(k,d)   D:k:v  c.setdefault   u:pairs  c.update(pairs)
+  I      c.popitem() c    c.clear()     C      c.copy()       e:pairs  c == {pairs}
+on_miss is k ↦ 10k+7.  Output:  <result>,<result>,…|<final items sorted>|<eviction order probe>
+-/
 namespace C03.Driver
-def handle (_line : String) : String := "bad-op"
+open BV C02
+
+abbrev C := Cache Nat Nat
+
+def parsePairs? (s : String) : Option (List (Nat × Nat)) :=
+  if s = "-" ∨ s = "" then some [] else
+  (splitOnChar s ',').foldr (fun w acc =>
+    match acc, splitOnChar w '.' with
+    | some l, [a, b] => match a.toNat?, b.toNat? with
+      | some x, some y => some ((x, y) :: l)
+      | _, _ => none
+    | _, _ => none) (some [])
+
+def insSorted (x : Nat × Nat) : List (Nat × Nat) → List (Nat × Nat)
+  | [] => [x]
+  | y :: ys => if x.1 < y.1 ∨ (x.1 = y.1 ∧ x.2 ≤ y.2) then x :: y :: ys else y :: insSorted x ys
+
+def sortPairs (l : List (Nat × Nat)) : List (Nat × Nat) := l.foldr insSorted []
+
+def insNat (x : Nat) : List Nat → List Nat
+  | [] => [x]
+  | y :: ys => if x ≤ y then x :: y :: ys else y :: insNat x ys
+
+def showPairs (l : List (Nat × Nat)) : String :=
+  if l.isEmpty then "-" else ",".intercalate (l.map fun p => s!"{p.1}.{p.2}")
+
+def parseOp? (tok : String) : Option (Op Nat Nat) :=
+  match splitOnChar tok ':' with
+  | ["s", k, v] => do some (.setitem (← k.toNat?) (← v.toNat?))
+  | ["g", k] => do some (.getitem (← k.toNat?))
+  | ["G", k, d] => do some (.get (← k.toNat?) (← d.toNat?))
+  | ["d", k] => do some (.delitem (← k.toNat?))
+  | ["p", k] => do some (.pop (← k.toNat?) none)
+  | ["P", k, d] => do some (.pop (← k.toNat?) (some (← d.toNat?)))
+  | ["D", k, v] => do some (.setdefault (← k.toNat?) (← v.toNat?))
+  | ["u", ps] => do some (.update (.pairs (← parsePairs? ps)) [])
+  | ["I"] => some .popitem
+  | ["c"] => some .clear
+  | ["C"] => some .copy
+  | ["e", ps] => do some (.eq (.pairs (← parsePairs? ps)))
+  | _ => none
+
+def showOut : Out Nat Nat C → String
+  | .none => "N"
+  | .val v => s!"v{v}"
+  | .keyError => "!KeyError"
+  | .item k v => s!"p{k}.{v}"
+  | .bool b => if b then "t" else "f"
+  | .nat n => s!"n{n}"
+  | .items l => s!"L{showPairs l}"
+  | .cache c => s!"L{showPairs (sortPairs c.d)}"
+
+/-- insert fresh keys one at a time and record which keys vanish (sorted), as the harness does -/
+def probe (c : C) (n : Nat) : List String :=
+  let rec go (c : C) (i : Nat) (fuel : Nat) (acc : List String) : List String :=
+    match fuel with
+    | 0 => acc.reverse
+    | fuel + 1 =>
+      let before := keys c.d
+      let c' := (step c (.setitem (1000 + i) 0)).1
+      let after := keys c'.d
+      let gone := (before.filter fun k => !after.contains k).foldr insNat []
+      go c' (i + 1) fuel (showNats gone "+" :: acc)
+  go c 0 n []
+
+def handle (line : String) : String :=
+  match words line with
+  | lru :: mx :: om :: init :: toks =>
+    match mx.toNat?, parsePairs? init with
+    | some mx, some init =>
+      if mx = 0 then "bad-op" else
+      let c0 : C := Cache.init (lru = "1") mx (if om = "1" then some (fun k => 10 * k + 7) else none)
+      let c1 := init.foldl (fun c p => (step c (.setitem p.1 p.2)).1) c0
+      let rec go (c : C) (toks : List String) (acc : List String) : Option (C × List String) :=
+        match toks with
+        | [] => some (c, acc.reverse)
+        | t :: ts => match parseOp? t with
+          | some op => let r := step c op; go r.1 ts (showOut r.2 :: acc)
+          | none => none
+      match go c1 toks [] with
+      | some (c, outs) =>
+        (if outs.isEmpty then "-" else ",".intercalate outs) ++ "|" ++ showPairs (sortPairs c.d) ++ "|" ++
+          ";".intercalate (probe c (2 * mx + 2))
+      | none => "bad-op"
+    | _, _ => "bad-op"
+  | _ => "bad-op"
+
 end C03.Driver
